@@ -59,6 +59,8 @@ type c18Case struct {
 	// dup: before Kill, the plugin advertises ONE brokered ID twice and the host never asks for it (gRPC: two Accepts of the
 	// id, i.e. two connection-info messages; net/rpc: two Dials of the id, i.e. two incoming streams)
 	dup bool
+	// stdioerr: the plugin's stdio stream ends at once with an unexpected status (Internal)
+	stdioerr bool
 }
 
 func (c *c18Case) line() string {
@@ -75,6 +77,9 @@ func (c *c18Case) line() string {
 	}
 	if c.dup {
 		s += " dup=1"
+	}
+	if c.stdioerr {
+		s += " stdioerr=1"
 	}
 	return s
 }
@@ -93,6 +98,7 @@ func c18FromLine(m map[string]string) (*c18Case, error) {
 	fmt.Sscanf(m["procs"], "%d", &c.procs)
 	fmt.Sscanf(m["lns"], "%d", &c.lns)
 	c.dup = m["dup"] == "1"
+	c.stdioerr = m["stdioerr"] == "1"
 	if c.pre = m["pre"]; c.pre != "" && c.pre != "close" {
 		return nil, errors.New("bad pre")
 	}
@@ -331,6 +337,9 @@ func c18Session(c *c18Case) (impl, pred string, notes []string) {
 
 	// (no exit marker: the plugin's main returns right after plugin.Serve, as a minimal plugin's does)
 	cfg := kitServeCfg{Sets: map[string]string{"3": c.proto}, GRPCServer: c.proto == "grpc"}
+	if c.stdioerr {
+		cfg.StdioStatus = "internal"
+	}
 	var syncOut, syncErr lockedBuf
 	cc := &plugin.ClientConfig{
 		HandshakeConfig:     kitHandshake(),
@@ -666,6 +675,14 @@ func c18Generate(r *rng) []*c18Case {
 				c.pre = "close"
 				add(c, []string{"d", "c"}, 0)
 			}
+		}
+	}
+	// a gRPC plugin whose stdio stream ends at once with an unexpected status
+	for _, cf := range cfgs {
+		if cf.proto == "grpc" && !cf.auto && !cf.mux && cf.launch == "cmd" {
+			c := cf
+			c.stdioerr = true
+			add(c, []string{"d", "p"}, 0)
 		}
 	}
 	// one brokered ID advertised twice by the plugin and never asked for by the host
